@@ -12,6 +12,7 @@ import (
 
 	"github.com/oasisprotocol/curve25519-voi/curve"
 	"github.com/oasisprotocol/curve25519-voi/curve/scalar"
+	"github.com/oasisprotocol/curve25519-voi/zzverif/fluent"
 	"github.com/oasisprotocol/curve25519-voi/zzverif/gen"
 	"github.com/oasisprotocol/curve25519-voi/zzverif/gx"
 	"github.com/oasisprotocol/curve25519-voi/zzverif/hist"
@@ -490,6 +491,10 @@ func yString(y *big.Int, sign uint) []byte {
 }
 
 func runCase(r *mon.Run, c Case) {
+	if c.Kind == "fluent" {
+		fluentCheck(r)
+		return
+	}
 	x := &ctx{r: r, c: c, h: hist.New(r.Rng(c.Stream + "/receivers"))}
 	defer func() { r.HistN("receivers-with-a-past", x.h.Uses) }()
 	rng := r.Rng(c.Stream)
@@ -630,5 +635,12 @@ func main() {
 	r.Sample("case", cases[len(cases)-1])
 	r.Sample("string", mon.Hex(gen.SpecialEncodings()[3]))
 	hugeLengths(r)
+	fluentCheck(r)
 	r.Finish()
+}
+
+// fluentCheck: every "sets the receiver and returns it" method of this property's types must return its receiver
+// (package fluent).
+func fluentCheck(r *mon.Run) {
+	fluent.Check(r, Case{Kind: "fluent"}, (*curve.CompressedEdwardsY)(nil), (*curve.MontgomeryPoint)(nil), (*curve.EdwardsPoint)(nil))
 }
